@@ -116,6 +116,8 @@ type Frame struct {
 	lastLockSnap *State
 	callSnaps    map[string]*State // state before call sites carrying asserts (atcall)
 	immCells     []immCell         // assigned-once local variable cells (top-level frame)
+	// calleeBindings: captured-variable cells of the closure whose contract is being applied
+	calleeBindings []string
 	lastLockReach string
 	csCount   map[string]int
 	noopFuncs map[string]bool
@@ -274,7 +276,13 @@ func storeHeaps(c *Ctx, t types.Type, into map[string]bool) {
 func mapHeaps(c *Ctx, m *types.Map) (dom, val string) {
 	k := c.sortOf(m.Key())
 	v := c.sortOf(m.Elem())
-	return "Mdom|" + k, "Mval|" + k + "|" + v
+	return "Mdom|" + k + "|" + v, "Mval|" + k + "|" + v
+}
+
+// mapLenHeap: the heap holding the lengths of maps of this type. Domain, value and length heaps
+// are separate per (key sort, value sort): maps of different types never interfere.
+func mapLenHeap(c *Ctx, m *types.Map) string {
+	return "M_len|" + c.sortOf(m.Key()) + "|" + c.sortOf(m.Elem())
 }
 
 // instrWrites adds the heaps an instruction may write.
@@ -284,7 +292,7 @@ func (f *Frame) instrWrites(in ssa.Instruction, w *WriteSet) {
 		storeHeaps(f.ctx, x.Val.Type(), w.Heaps)
 	case *ssa.MapUpdate:
 		d, v := mapHeaps(f.ctx, x.Map.Type().Underlying().(*types.Map))
-		w.Heaps[d], w.Heaps[v], w.Heaps["M_len"] = true, true, true
+		w.Heaps[d], w.Heaps[v], w.Heaps[mapLenHeap(f.ctx, x.Map.Type().Underlying().(*types.Map))] = true, true, true
 	case *ssa.Call:
 		w.add(f.callWrites(x.Common()))
 	case *ssa.Defer:
@@ -309,7 +317,11 @@ func (f *Frame) callWrites(cc *ssa.CallCommon) *WriteSet {
 			}
 		case "delete":
 			d, v := mapHeaps(f.ctx, cc.Args[0].Type().Underlying().(*types.Map))
-			w.Heaps[d], w.Heaps[v], w.Heaps["M_len"] = true, true, true
+			w.Heaps[d], w.Heaps[v], w.Heaps[mapLenHeap(f.ctx, cc.Args[0].Type().Underlying().(*types.Map))] = true, true, true
+		case "close":
+			if _, ok := ghostHeaps["chanClosed"]; ok {
+				w.Heaps["G_chanClosed"] = true
+			}
 		case "clear":
 			w.All = true
 		}
@@ -983,12 +995,17 @@ func (f *Frame) havocState(st *State, w *WriteSet, why string) *State {
 	if w.All {
 		out.base = f.ctx.newBase()
 		out.heaps = map[string]string{}
-		// which locks this goroutine holds is not changed by callees
+		// which locks this goroutine holds is not changed by callees; ghost heaps change only
+		// through operations whose contract says so (they are in w.Heaps then)
+		for name := range ghostHeaps {
+			f.heap(st, "G_"+name)
+		}
 		for k, v := range st.heaps {
-			if strings.HasPrefix(k, "G_held|") {
+			if strings.HasPrefix(k, "G_held|") || (strings.HasPrefix(k, "G_") && !w.Heaps[k]) {
 				out.heaps[k] = v
 			}
 		}
+		f.eng.note("ghost state (declared ghost heaps) is changed only by operations whose contract lists it under `writes`; code without a contract is assumed not to perform them")
 	} else {
 		var hs []string
 		for h := range w.Heaps {
@@ -1084,7 +1101,13 @@ func (f *Frame) frameFact1(k, hb, ha, alloc, guard string, modObjs []string) {
 		}
 		if strings.HasPrefix(m, "type:") {
 			// every object allocated as this type may have changed
-			ex = append(ex, fmt.Sprintf("(not (= (objtype (pobj p)) %s))", m[5:]))
+			// (type:ID:since — except those allocated at or after `since`)
+			parts := strings.SplitN(m[5:], ":", 2)
+			if len(parts) == 2 {
+				ex = append(ex, fmt.Sprintf("(or (not (= (objtype (pobj p)) %s)) (>= (pobj p) %s))", parts[0], parts[1]))
+			} else {
+				ex = append(ex, fmt.Sprintf("(not (= (objtype (pobj p)) %s))", parts[0]))
+			}
 			continue
 		}
 		ex = append(ex, fmt.Sprintf("(not (= (pobj p) %s))", m))
@@ -1104,7 +1127,7 @@ func (f *Frame) frameFact1(k, hb, ha, alloc, guard string, modObjs []string) {
 				continue
 			}
 			if strings.HasPrefix(m, "type:") {
-				sex = append(sex, fmt.Sprintf("(not (= (objtype (pobj (sbase s))) %s))", m[5:]))
+				sex = append(sex, fmt.Sprintf("(not (= (objtype (pobj (sbase s))) %s))", strings.SplitN(m[5:], ":", 2)[0]))
 				continue
 			}
 			sex = append(sex, fmt.Sprintf("(not (= (pobj (sbase s)) %s))", m))
